@@ -874,6 +874,12 @@ func (g *Goroutine) sortSlice(c *frame, x Value, less Value, stable bool) {
 }
 
 func addMiscIntrinsics(m map[string]Intrinsic) {
+	// crypto/tls's own HPKE sender (real X25519/HKDF/AEAD) is not encodable: the
+	// client handshake is cut here with an error (what precedes it - parsing and
+	// choosing the ECH config - is what the harness observes).
+	m["crypto/internal/hpke.SetupSender"] = func(g *Goroutine, c *frame, fn *ssa.Function, a []Value) (Value, bool) {
+		return tup(Value{K: KSlice}, Value{K: KPtr}, g.w.prog.newError("verif: HPKE sender not modelled")), true
+	}
 	// net/http connection machinery: (*http.Transport).RoundTrip is modelled as
 	// "dial the origin through the transport's own DialTLSContext / DialContext
 	// with the request context and the canonical address of URL.Host; a dial
